@@ -175,7 +175,8 @@ class TextStream(Stream):
         if r["reqs"] != exp_reqs:
             bad.append("requires-dist")
         if bad:
-            return [("C11/fields-differ-from-rfc822/" + region, {"fields": bad, "tool": r, "rfc822": ref})]
+            # the symptom names the fields: a recorded finding about one field must not hide another field going wrong
+            return [("C11/%s-differ-from-rfc822/%s" % ("+".join(bad), region), {"fields": bad, "tool": r, "rfc822": ref})]
         return []
 
 
